@@ -339,3 +339,20 @@ def import_closure(requested, specs, parsed_ok):
             todo.extend(specs[n].get('imports', []))
             todo.extend(basemibs.BASE_NAMES)
     return seen
+
+
+def declared_imports(spec):
+    """Module names the rendered text imports from (as spelled), incl. base modules -- ground truth for closure checks.
+    Only for variants whose text still carries the whole IMPORTS clause."""
+    out = []
+    if spec.get('smiv1'):
+        out += ['RFC1155-SMI', 'RFC-1212']
+    else:
+        out.append('SNMPv2-SMI')
+        if spec.get('compliance'):
+            out.append('SNMPv2-CONF')
+    for d in spec.get('imports', []):
+        out.append(spec.get('spell', {}).get(d, d))
+    if spec.get('defval_dep') and spec.get('oiddefval') and not spec.get('smiv1'):
+        out.append(spec['defval_dep'])
+    return out
